@@ -341,6 +341,9 @@ def write_evidence(prop, tier, seed, outcomes, kres, kf_open, kf_lines, kf_notes
                     if ch.meta.get('kind') in ('fn', 'fragment'):
                         entry['contract_clauses'] = sum(1 for _, p in ch.lines if p.startswith(('requires[', 'ensures[', 'inv:')))
                         fns.append(entry)
+                    elif ch.meta.get('kind') == 'impl':     # a whole trait impl extracted method by method (generated contracts: one per method)
+                        entry['methods_under_contract'] = sum(1 for _, p in ch.lines if p == 'sig')
+                        fns.append(entry)
                     else:
                         pu.setdefault('types_extracted', []).append(entry)
             agg = {}
